@@ -1405,6 +1405,56 @@ Proof.
   now apply stack_restores_exact.
 Qed.
 
+
+(* ---- histories: conversions interleaved with writes of the HOST program.  The property is per call:
+   after each conversion the attribute table is what it was immediately BEFORE that call — also when
+   the host has rebound or deleted a patched attribute since the previous conversion.  The model of
+   apply_monkey_patches has no state that survives a call other than _PATCH_STATE, which every call
+   hands back unchanged (empty at top level); the harness ties the running function to that
+   (tie:apply_monkey_patches-keeps-no-cross-call-state + differential histories).                  *)
+Inductive hevent :=
+| HConv (ks : list amp_spec) (fa : fault) (frames : list (list spec * fault)) (body : heap -> heap * outcome)
+| HSet (t : target) (a : attr) (v : value)        (* host: setattr(t, a, v) — rebinding, also of a patched key *)
+| HDel (t : target) (a : attr).                   (* host: delattr(t, a) (AttributeError ignored) *)
+Definition hstep (e : hevent) (st : heap * pstate) : heap * pstate :=
+  match e with
+  | HConv ks fa frames body => fst (activate_worlds ks fa frames body st)
+  | HSet t a v => (py_setattr (fst st) t a v, snd st)
+  | HDel t a => (match py_delattr (fst st) t a with Some h' => h' | None => fst st end, snd st)
+  end.
+Definition hevent_ok (e : hevent) : Prop :=
+  match e with
+  | HConv ks fa frames body => sync_fault fa /\ (forall sf, In sf frames -> sync_fault (snd sf)) /\ body_restores body
+  | _ => True
+  end.
+Fixpoint every_call_restores (evs : list hevent) (st : heap * pstate) : Prop :=
+  match evs with
+  | [] => True
+  | e :: r =>
+    (match e with
+     | HConv _ _ _ _ => (forall u b, fst (hstep e st) u b = fst st u b) /\
+                        (forall t a, snd (hstep e st) t a = snd st t a) /\
+                        (forall D a, lookup (fst (hstep e st)) D a = lookup (fst st) D a)
+     | _ => True
+     end) /\ every_call_restores r (hstep e st)
+  end.
+Theorem host_history_restores : forall evs st,
+  ps_wf (snd st) -> (forall e, In e evs -> hevent_ok e) -> every_call_restores evs st.
+Proof.
+  induction evs as [|e r IH]; intros [h ps] Hwf Hok; simpl; [exact I|].
+  pose proof (Hok e (or_introl eq_refl)) as He.
+  assert (Hr : forall e', In e' r -> hevent_ok e') by (intros e' I'; apply Hok; now right).
+  destruct e as [ks fa frames body|t a v|t a]; simpl in *.
+  - destruct He as [Hfa [Hfr Hb]].
+    destruct (activate_worlds_exact ks fa frames body Hfa Hfr Hb h ps Hwf) as [Hps Hh].
+    split.
+    + split; [exact Hh|]. split; [exact Hps|]. now apply own_eq_lookup.
+    + destruct (activate_worlds ks fa frames body (h, ps)) as [[h' ps'] oc]. simpl in *.
+      apply IH; [|assumption]. simpl. intros t a o c w E. rewrite Hps in E. now apply (Hwf t a o c w).
+  - split; [exact I|]. now apply IH.
+  - split; [exact I|]. now apply IH.
+Qed.
+
 End Fixed.
 
 (* ================================================================== the x64 flag *)
@@ -1643,6 +1693,18 @@ Definition ps_obs_ok (ps : pstate) (l : list (target * attr * option (value * Z 
     | None, None => true
     | _, _ => false
     end) l.
+(* a HISTORY of activations of the same keys with host writes in between: per round an optional host
+   write (value None = delattr), nesting depth, whether the body returns, and what is observed after *)
+Definition around := (option (target * attr * option value) * nat * bool *
+                      list obs * list (target * attr * option (value * Z * bool)) * outcome)%type.
+Definition ahcase := (list (target * list target) * list (target * attr * value) *
+                      list (target * attr * pf_d) * list around)%type.
+Definition host_write (h : heap) (w : option (target * attr * option value)) : heap :=
+  match w with
+  | None => h
+  | Some (t, a, Some v) => py_setattr h t a v
+  | Some (t, a, None) => match py_delattr h t a with Some h' => h' | None => h end
+  end.
 Definition acase_ok (fixed : bool) (c : acase) : bool :=
   let '(ml, ol, ks, depth, body_returns, after, psafter, oc) := c in
   let M := mro_of ml in let h := heap_of ol in
@@ -1685,6 +1747,21 @@ Definition acase_ok_tol (fixed : bool) (c : acase) : bool :=
   let body : amp_body := fun hp => (fst hp, snd hp, if body_returns then Returned else Raised) in
   let r := amp_depth M fixed depth ks' NoFault body (h, ps_empty) in
   obs_ok_tol M h (fst (fst r)) after && ps_obs_ok_tol (snd (fst r)) psafter && outcome_eqb (snd r) oc.
+
+Fixpoint ahrounds_ok (M : hierarchy) (fixed tol : bool) (ks : list amp_spec) (rs : list around) (st : heap * pstate) : bool :=
+  match rs with
+  | [] => true
+  | (w, depth, body_returns, after, psafter, oc) :: rest =>
+    let h1 := host_write (fst st) w in
+    let body : amp_body := fun hp => (fst hp, snd hp, if body_returns then Returned else Raised) in
+    let r := amp_depth M fixed depth ks NoFault body (h1, snd st) in
+    (if tol then obs_ok_tol M h1 (fst (fst r)) after && ps_obs_ok_tol (snd (fst r)) psafter
+     else obs_ok M (fst (fst r)) after && ps_obs_ok (snd (fst r)) psafter)
+    && outcome_eqb (snd r) oc && ahrounds_ok M fixed tol ks rest (fst r)
+  end.
+Definition ahcase_ok (fixed tol : bool) (c : ahcase) : bool :=
+  let '(ml, ol, ks, rs) := c in
+  ahrounds_ok (mro_of ml) fixed tol (map (fun x => (fst (fst x), snd (fst x), pf_of (snd x))) ks) rs (heap_of ol, ps_empty).
 
 (* the real spec list, dumped by the harness: predicted own / getattr differences after one
    activation stack, and the clashes that explain them *)
